@@ -4,8 +4,8 @@ CONSTANTS
  NParts <- NP21
  SubsChoices = {{"t1"},{"t1","t2"}}
  CommitTP <- CTP
- SessChoices = {2}
- RebT = 2
+ SessChoices = {2,6}
+ RebT = 3
  DefT = 30
  KeepT = {TRUE}
  MaxClock = 4
@@ -18,18 +18,18 @@ CONSTANTS
  DevJoinOkEarly = FALSE
  DevAssignAllMembers = FALSE
  DevRestoreDropsAsg = FALSE
- DevRestoreGenZero = TRUE
+ DevRestoreGenZero = FALSE
  DevExpireIgnoresHb = FALSE
  DevNoLaggerDrop = FALSE
  DevNoExpire = FALSE
- DevLaggerSkippedOnExpiry = FALSE
+ DevLaggerSkippedOnExpiry = TRUE
  DevSyncRefusesIdle = FALSE
  DevHbWriteUnlocked = FALSE
  DevCleanupWriteUnlocked = FALSE
  DevSyncLookupUnlocked = FALSE
 INIT Init
 NEXT Next
-PROPERTIES C15_RestoreEqual C15_NotFenced C15_KeepWorking
+PROPERTIES C43_RemovedJustified C43_NoOverdue C43_Rebalances
 CONSTRAINT GenBound
 VIEW View
 CHECK_DEADLOCK FALSE
